@@ -101,6 +101,16 @@ pub fn run(args: &Args) {
             }
         }
     }
+    // Connection.Open carries the virtual host exactly as configured: nothing is decoded,
+    // trimmed or normalised on the way (names with %-sequences, slashes, blanks, non-ASCII)
+    for vh in ["/", "v", "sales%2Feu", "100%25", "%2F", "%zz", "50%", "a/b", "/lead", "trail/", " v ", "caf\u{e9}", "caf%C3%A9", "a+b", ""] {
+        part.evaluations += 1;
+        part.distinct_nontrivial += 1;
+        let o = open(&ConnectionOptions::<Auth>::default().virtual_host(vh));
+        if o.virtual_host != vh {
+            part.violation("startok:open-vhost", format!("virtual_host({:?}) -> Connection.Open carries {:?}", vh, o.virtual_host), json!({"engine":"seqx","check":"startok","case":{"vhost":vh}}));
+        }
+    }
     part.sample(json!({"auth":0,"locale":"en_US","mechanisms":"AMQPLAIN PLAINX","locales":"fr_FR en_US"}));
     part.sample(json!({"auth":2,"locale":"fr_FR","mechanisms":"XPLAIN EXTERNAL","locales":"en_US_x fr_FR"}));
     part.finish(args.out.as_deref());
